@@ -203,6 +203,10 @@ type History struct {
 	Via   string `json:"via,omitempty"` // max_connections or unhealthy_connection_count
 	Steps int    `json:"steps,omitempty"`
 	GapMs int    `json:"gap_ms,omitempty"`
+	// OmitMaxFails leaves max_fails out of the passive policy: the documented default (1) applies.
+	OmitMaxFails bool `json:"omit_max_fails,omitempty"`
+	// HeldConn keeps one proxied connection to A open across A's outage and recovery (active checks).
+	HeldConn bool `json:"held_conn,omitempty"`
 }
 
 func genHistory(seed int64, i int) *History {
@@ -217,6 +221,10 @@ func genHistory(seed int64, i int) *History {
 	h.Via = []string{"max_connections", "unhealthy_connection_count"}[r.Intn(2)]
 	h.Steps = 10 + r.Intn(10)
 	h.GapMs = []int{20, 60, 120}[r.Intn(3)]
+	if r.Intn(3) == 0 {
+		h.OmitMaxFails, h.M = true, 1
+	}
+	h.HeldConn = r.Intn(2) == 0
 	return h
 }
 
@@ -365,8 +373,11 @@ func passive(c *fw.Ctx, canary *oracle.Canary, h *History) {
 		slack = 150 * time.Millisecond
 	}
 	sel := nextTag("sel")
-	routes := proxyRoutes([]map[string]any{dial(A), dial(B)}, map[string]any{
-		"health_checks": map[string]any{"passive": map[string]any{"fail_duration": fmt.Sprintf("%dms", h.D), "max_fails": h.M}}}, sel)
+	policy := map[string]any{"fail_duration": fmt.Sprintf("%dms", h.D), "max_fails": h.M}
+	if h.OmitMaxFails {
+		delete(policy, "max_fails")
+	}
+	routes := proxyRoutes([]map[string]any{dial(A), dial(B)}, map[string]any{"health_checks": map[string]any{"passive": policy}}, sel)
 	app, err := drive.StartApp(routes, "5s")
 	if err != nil {
 		report(c, h, "config-rejected", err.Error(), routes)
@@ -539,6 +550,18 @@ func active(c *fw.Ctx, canary *oracle.Canary, h *History) {
 	}
 	time.Sleep(250 * time.Millisecond)
 	step("A", "initially-up")
+	if h.HeldConn {
+		// an established connection to A stays open while A stops (and later resumes) accepting new ones:
+		// the checker's verdict is about whether the peer accepts connections, not about old ones
+		at, held, _ := connect(app, A, B, nextTag("a"), true, 5*time.Second)
+		outcomes += "h"
+		if held != nil {
+			defer func() { _ = held.Close(); hmods.Untrack(at.tag) }()
+		}
+		if at.outcome != "A" {
+			report(c, h, "active-initially-up", fmt.Sprintf("initially-up: expected the held connection to go to A, it ended as %q", at.outcome), nil)
+		}
+	}
 	A.down()
 	time.Sleep(2*100*time.Millisecond + 200*time.Millisecond + 600*time.Millisecond) // 2 intervals + timeout + margin
 	step("B", "down-not-selected")
